@@ -233,4 +233,56 @@ theorem mulF32_spec (S p q : Nat) (hq : 0 < q) :
         apply mul_le_mul_of_nonneg_right hle (by positivity)
     _ = v * (2 ^ 25 + 1) := by rw [div_mul_cancel₀ _ (by positivity)]
 
+/-- the float32 product is closer than `1 / q` to the exact product as long as `S · p < 2^22` -/
+theorem mulF32_near (S p q : Nat) (hq : 0 < q) (hsp : S * p < 2 ^ 22) :
+    0 < ((mulF32 S p q).2 : Int) ∧
+    ((mulF32 S p q).1 : Int) * q < ((S : Int) * p) * (mulF32 S p q).2 + (mulF32 S p q).2 ∧
+    ((S : Int) * p) * (mulF32 S p q).2 - (mulF32 S p q).2 < ((mulF32 S p q).1 : Int) * q := by
+  obtain ⟨hb, h⟩ := mulF32_spec S p q hq
+  generalize mulF32 S p q = r at *
+  obtain ⟨a, b⟩ := r
+  simp only [qval] at h hb ⊢
+  have hbq : (0 : ℚ) < b := by exact_mod_cast hb
+  have hqq : (0 : ℚ) < q := by exact_mod_cast hq
+  have hX : ((S : ℚ) * p) < 2 ^ 22 := by exact_mod_cast hsp
+  have hX0 : (0 : ℚ) ≤ (S : ℚ) * p := by positivity
+  -- |a/b - X/q| < 1/q
+  have hlt : |(a : ℚ) / b - (S : ℚ) * p / q| * 2 ^ 48 < 1 / q * 2 ^ 48 := by
+    apply lt_of_le_of_lt h
+    rw [div_mul_eq_mul_div, div_mul_eq_mul_div, div_lt_div_iff_of_pos_right hqq]
+    nlinarith
+  have hlt' : |(a : ℚ) / b - (S : ℚ) * p / q| < 1 / q := lt_of_mul_lt_mul_right hlt (by positivity)
+  have hab := abs_lt.mp hlt'
+  have e : (a : ℚ) / b - (S : ℚ) * p / q = ((a : ℚ) * q - (S : ℚ) * p * b) / (b * q) := by field_simp
+  rw [e] at hab
+  have hbqp : (0 : ℚ) < (b : ℚ) * q := by positivity
+  have u1 : ((a : ℚ) * q - (S : ℚ) * p * b) < b := by
+    have := hab.2
+    rw [div_lt_iff₀ hbqp] at this
+    have e2 : 1 / (q : ℚ) * (b * q) = b := by field_simp
+    linarith
+  have u2 : -(b : ℚ) < ((a : ℚ) * q - (S : ℚ) * p * b) := by
+    have := hab.1
+    rw [lt_div_iff₀ hbqp] at this
+    have e2 : -(1 / (q : ℚ)) * (b * q) = -b := by field_simp
+    linarith
+  refine ⟨by exact_mod_cast hb, ?_, ?_⟩
+  · have : ((a : ℚ) * q) < (S : ℚ) * p * b + b := by linarith
+    exact_mod_cast this
+  · have : (S : ℚ) * p * b - b < (a : ℚ) * q := by linarith
+    exact_mod_cast this
+
+/-- **The float32 count versus the exact-rational count.**  For `S · p < 2^22`: when `S·p/q` is not an integer the
+float32 ceiling and floor are the exact ones; when it is an integer `k` the float32 product may land just off
+`k`, and then the ceiling is `k` or `k + 1` and the floor `k` or `k - 1` — the only way the two differ. -/
+theorem count_f32_spec (S p q : Nat) (hq : 0 < q) (hsp : S * p < 2 ^ 22) :
+    (¬ (q : Int) ∣ (S : Int) * p → countCeilF32 S p q = ratioCeil S p q ∧ countFloorF32 S p q = ratioFloor S p q) ∧
+    ((q : Int) ∣ (S : Int) * p →
+      (countCeilF32 S p q = ratioCeil S p q ∨ countCeilF32 S p q = ratioCeil S p q + 1) ∧
+      (countFloorF32 S p q = ratioFloor S p q ∨ countFloorF32 S p q = ratioFloor S p q - 1)) := by
+  obtain ⟨hb, h1, h2⟩ := mulF32_near S p q hq hsp
+  have hqi : (0 : Int) < q := by exact_mod_cast hq
+  have := ceil_floor_near ((S : Int) * p) q (mulF32 S p q).1 (mulF32 S p q).2 hqi hb h1 h2
+  simpa only [countCeilF32, countFloorF32, ratioCeil, ratioFloor] using this
+
 end DirectVerif.C11
